@@ -81,7 +81,10 @@ func worldAccts(name string) []Acct {
 }
 
 // NewWorld builds the chains, tokens, clients and relayer registry.
-func NewWorld(names []string) *World {
+func NewWorld(names []string) *World { return NewWorldAccts(names, worldAccts) }
+
+// NewWorldAccts is NewWorld with a caller-chosen account list per chain (index 0 = user, 1 = relayer, 2 = outsider).
+func NewWorldAccts(names []string, acctsOf func(string) []Acct) *World {
 	w := &World{Names: names, Chains: map[string]*Chain{}, ID: map[string]string{}, Abs: map[string]string{},
 		Origin: map[string]common.Address{}, Wrap: map[string]map[string]common.Address{}, AbsH: map[string][]int64{},
 		Snap: map[string][]SnapT{}, Sent: map[string][]byte{}, SentHash: map[string]string{}, AckBytes: map[string][]byte{},
@@ -89,7 +92,7 @@ func NewWorld(names []string) *World {
 	for _, n := range names {
 		id := ChainIDs[n]
 		w.ID[n], w.Abs[id] = id, n
-		c := NewChain(ChainOpts{ChainID: id, Accts: worldAccts(n)})
+		c := NewChain(ChainOpts{ChainID: id, Accts: acctsOf(n)})
 		w.Chains[n] = c
 		// the packet contract must know the chain's name (the repository's tests do the same)
 		_, err := c.App.XIBCKeeper.PacketKeeper.CallEVM(c.Ctx(), packetABI, packettypes.ModuleAddress, packetAddr, "setChainName", id)
